@@ -1,4 +1,4 @@
-import DarkluaModel.C11.Lemmas
+import DarkluaModel.C11.Mirror
 /-!
 C11 — Batch runs map files one-to-one, isolate failures and are deterministic.
 
@@ -125,6 +125,211 @@ theorem ancestors_only_created (ff : Bool) (σ : List Item) (q : Path) :
     · rcases hstep with h3 | ⟨h3, _⟩
       · exact Or.inr ⟨h3 ▸ h1, h2⟩
       · exact Or.inr ⟨h3, h2⟩
+
+/-! ## Part 0 — `collect_work`: the work list mirrors the input one-to-one -/
+
+/-- H11 unpacked -/
+theorem h11_spec (t : Tree) (input : Path) (output : Option Path)
+    (h : h11 b t input output = true) :
+    TreeOk b t ∧ plain (normalize input) = true ∧ normalize input ≠ [] ∧
+    ∀ out, output = some out → isFile b t input = false →
+      plain out = true ∧ out ≠ [] ∧
+      (resolve b out = resolve b (normalize input) ∨
+        noOverlap (resolve b (normalize input)) (resolve b out) = true) := by
+  simp only [h11, Bool.and_eq_true, decide_eq_true_eq] at h
+  obtain ⟨hok, ⟨hp, hne⟩, hout⟩ := h
+  refine ⟨treeOk_spec b t hok, hp, hne, ?_⟩
+  intro out ho hf
+  subst ho
+  simp only [hf, Bool.false_or, Bool.and_eq_true, Bool.or_eq_true, decide_eq_true_eq] at hout
+  exact ⟨hout.1.1, hout.1.2, hout.2⟩
+
+/-- **collect_independent.** Inside H11 the collected work items are pairwise independent, for
+every enumeration order of the walk — so Part 1 applies to every run inside H11. -/
+theorem collect_independent (t : Tree) (input : Path) (output : Option Path)
+    (order : List Path) (wl : List Item) (hH : h11 b t input output = true)
+    (hperm : order.Perm (collectWorkRes b t (normalize input)))
+    (hc : collectWorkFrom b t input output order = .ok wl) : wl.Pairwise (Indep b) := by
+  obtain ⟨hok, hnin, hnin0, hout⟩ := h11_spec b t input output hH
+  have hwalk : ∀ s ∈ order, ∃ rel, baseOf b (normalize input) ++ rel ∈ fileKeys t ∧
+      rel.all Comp.isNormal = true ∧ s = normalize input ++ rel := by
+    intro s hs
+    have : s ∈ collectWorkRes b t (normalize input) := hperm.mem_iff.mp hs
+    exact walk_mirror b t _ hok hnin hnin0 s (List.mem_filter.mp this).1
+  have single : ∀ (p : Path) (o : Option Path), (addSourceIfMissing [] p o).Pairwise (Indep b) := by
+    intro p o; simp [addSourceIfMissing]
+  cases output with
+  | none =>
+    simp only [collectWorkFrom, Except.ok.injEq] at hc
+    subst hc
+    exact (inPlaceLoop_inv b (fileKeys t) _ hnin hnin0 hok.cwd hok.pf order [] hwalk
+      (fun _ h => by cases h) List.Pairwise.nil).2
+  | some out =>
+    simp only [collectWorkFrom] at hc
+    cases hf : isFile b t input
+    · simp only [hf, Bool.false_eq_true, if_false] at hc
+      obtain ⟨ho, ho0, hrel⟩ := hout out rfl hf
+      rw [resolve_plain b out ho ho0 hok.cwd, resolve_plain b _ hnin hnin0 hok.cwd] at hrel
+      exact (collectDirLoop_inv b (fileKeys t) _ out hnin hnin0 ho ho0 hok.cwd hok.pf hrel order
+        [] wl hwalk (fun _ h => by cases h) List.Pairwise.nil hc).2
+    · simp only [hf, if_true] at hc
+      split at hc
+      · split at hc
+        · cases hc
+        · simp only [Except.ok.injEq] at hc; subst hc; exact single _ _
+      · split at hc
+        · simp only [Except.ok.injEq] at hc; subst hc; exact single _ _
+        · split at hc
+          · cases hc
+          · simp only [Except.ok.injEq] at hc; subst hc; exact single _ _
+
+/-- **mirror_bijective.** Directory input with an output location, inside H11, any walk order:
+* every work item is a `.lua`/`.luau` file `input/rel` of the tree and its destination is exactly
+  `output/rel` (same relative path `rel`, only `Normal` components);
+* every `.lua`/`.luau` file under the input has a work item (exactly one: sources are pairwise
+  distinct), destinations are pairwise distinct;
+* when the two locations are disjoint no destination is any item's source, so (with
+  `nothing_else_written`) inputs are never written. -/
+theorem mirror_bijective (t : Tree) (input out : Path) (order : List Path) (wl : List Item)
+    (hH : h11 b t input (some out) = true) (hdir : isFile b t input = false)
+    (hperm : order.Perm (collectWorkRes b t (normalize input)))
+    (hc : collectWorkFrom b t input (some out) order = .ok wl) :
+    (∀ it ∈ wl, ∃ rel, rel.all Comp.isNormal = true ∧
+        it.source = normalize input ++ rel ∧ it.output = out ++ rel ∧
+        isLuaPath it.source = true ∧
+        resolve b it.source = resolve b (normalize input) ++ rel ∧
+        resolve b it.output = resolve b out ++ rel ∧
+        (∃ c, t.get (resolve b it.source) = some (.file c))) ∧
+    (∀ s ∈ collectWorkRes b t (normalize input), ∃ it ∈ wl, it.source = s) ∧
+    wl.Pairwise (fun x y => x.source ≠ y.source ∧ resolve b x.output ≠ resolve b y.output) ∧
+    (noOverlap (resolve b (normalize input)) (resolve b out) = true →
+      ∀ x ∈ wl, ∀ y ∈ wl, resolve b x.output ≠ resolve b y.source) := by
+  obtain ⟨hok, hnin, hnin0, hout⟩ := h11_spec b t input (some out) hH
+  obtain ⟨ho, ho0, hrel⟩ := hout out rfl hdir
+  have hRin := resolve_plain b _ hnin hnin0 hok.cwd
+  have hRout := resolve_plain b out ho ho0 hok.cwd
+  have hwalk : ∀ s ∈ order, ∃ rel, baseOf b (normalize input) ++ rel ∈ fileKeys t ∧
+      rel.all Comp.isNormal = true ∧ s = normalize input ++ rel := by
+    intro s hs
+    have : s ∈ collectWorkRes b t (normalize input) := hperm.mem_iff.mp hs
+    exact walk_mirror b t _ hok hnin hnin0 s (List.mem_filter.mp this).1
+  have hplain : ∀ s ∈ order, normalize s = s := by
+    intro s hs
+    obtain ⟨rel, _, hn, e⟩ := hwalk s hs
+    rw [e]; exact normalize_plain _ (plain_append _ _ hnin hn)
+  have hc' := hc
+  simp only [collectWorkFrom, hdir, Bool.false_eq_true, if_false] at hc'
+  have hrel' := hrel
+  rw [hRout, hRin] at hrel'
+  obtain ⟨hm, hp⟩ := collectDirLoop_inv b (fileKeys t) _ out hnin hnin0 ho ho0 hok.cwd hok.pf hrel'
+    order [] wl hwalk (fun _ h => by cases h) List.Pairwise.nil hc'
+  obtain ⟨hsrc, _, hcomp⟩ := collectDirLoop_sources _ out order [] wl hc'
+  refine ⟨?_, ?_, ?_, ?_⟩
+  · intro it hit
+    obtain ⟨rel, hk, hn, e1, e2⟩ := hm it hit
+    have hlua : isLuaPath it.source = true := by
+      rcases hsrc it hit with h | ⟨s, hs, e⟩
+      · cases h
+      · rw [e, hplain s hs, hplain s hs]
+        have : s ∈ collectWorkRes b t (normalize input) := hperm.mem_iff.mp hs
+        exact (List.mem_filter.mp this).2
+    have rs : resolve b it.source = baseOf b (normalize input) ++ rel := by
+      rw [e1, resolve_plain b _ (plain_append _ _ hnin hn) (by simp [hnin0]) hok.cwd,
+        baseOf_append b _ rel hnin0]
+    have ro : resolve b it.output = baseOf b out ++ rel := by
+      rw [e2, resolve_plain b _ (plain_append _ _ ho hn) (by simp [ho0]) hok.cwd,
+        baseOf_append b _ rel ho0]
+    refine ⟨rel, hn, e1, e2, hlua, by rw [rs, hRin], by rw [ro, hRout], ?_⟩
+    rw [rs]
+    exact fileKeys_get t hok.nodup _ hk
+  · intro s hs
+    have hso : s ∈ order := hperm.mem_iff.mpr hs
+    obtain ⟨it, hit, e⟩ := hcomp s hso
+    exact ⟨it, hit, by rw [e, hplain s hso, hplain s hso]⟩
+  · exact hp.imp (fun h => ⟨h.1, h.2.2.1⟩)
+  · intro hno x hx y hy
+    by_cases hxy : x = y
+    · subst hxy
+      obtain ⟨rel, _, hn, e1, e2⟩ := hm x hx
+      rw [e1, e2, resolve_plain b _ (plain_append _ _ hnin hn) (by simp [hnin0]) hok.cwd,
+        resolve_plain b _ (plain_append _ _ ho hn) (by simp [ho0]) hok.cwd,
+        baseOf_append b _ rel hnin0, baseOf_append b _ rel ho0]
+      intro e
+      rw [hRin, hRout] at hno
+      simp only [noOverlap, Bool.and_eq_true, Bool.not_eq_true', ← Bool.not_eq_true,
+        List.isPrefixOf_iff_prefix] at hno
+      have h1 : baseOf b out <+: baseOf b (normalize input) ++ rel := e ▸ List.prefix_append _ _
+      have h2 : baseOf b (normalize input) <+: baseOf b (normalize input) ++ rel :=
+        List.prefix_append _ _
+      rcases prefix_comparable h1 h2 with h | h
+      · exact hno.2 h
+      · exact hno.1 h
+    · exact (pairwise_indep_of_mem hp hx hy hxy).2.2.2.1
+
+/-- `a.lua`, `b.luau`, `n.txt` -/
+def nmA : Bytes := [97, 46, 108, 117, 97]
+def nmB : Bytes := [98, 46, 108, 117, 97, 117]
+def nmN : Bytes := [110, 46, 116, 120, 116]
+/-- memory tree `src/a.lua`, `src/sub/b.luau`, `src/n.txt`, `other/a.lua` -/
+def exTree : Tree :=
+  [([.normal [1], .normal nmA], .file [1]), ([.normal [1], .normal [2], .normal nmB], .file [2]),
+   ([.normal [1], .normal nmN], .file [3]), ([.normal [4], .normal nmA], .file [4])]
+def exMem : Backend := ⟨false, []⟩
+/-- real tree under `/r`, working directory `/r` -/
+def exFsB : Backend := ⟨true, [.root, .normal [0]]⟩
+def exFsTree : Tree :=
+  [([.root, .normal [0]], .dir), ([.root, .normal [0], .normal [1]], .dir),
+   ([.root, .normal [0], .normal [1], .normal nmA], .file [1]),
+   ([.root, .normal [0], .normal [1], .normal [2]], .dir),
+   ([.root, .normal [0], .normal [1], .normal [2], .normal nmB], .file [2]),
+   ([.root, .normal [0], .normal [1], .normal nmN], .file [3])]
+
+-- non-vacuity of `collect_independent` / `mirror_bijective`: H11 holds, the walk is non-trivial
+example : h11 exMem exTree [.cur, .normal [1]] (some [.normal [9]]) = true := by decide
+example : isFile exMem exTree [.cur, .normal [1]] = false := by decide
+example : (collectWork exMem exTree [.cur, .normal [1]] (some [.normal [9]])).toOption =
+    some [⟨[.normal [1], .normal nmA], [.normal [9], .normal nmA]⟩,
+         ⟨[.normal [1], .normal [2], .normal nmB], [.normal [9], .normal [2], .normal nmB]⟩] := by
+  decide
+example : h11 exFsB exFsTree [.normal [1]] (some [.root, .normal [0], .normal [9]]) = true := by decide
+example : h11 exFsB exFsTree [.normal [1]] none = true := by decide
+example : (collectWork exFsB exFsTree [.normal [1]] (some [.normal [9]])).toOption.map List.length
+    = some 2 := by decide
+
+/-- the unrestricted statement "collecting work never fails on a well-formed tree" -/
+def collect_total_full : Prop :=
+  ∀ (b : Backend) (t : Tree) (input out : Path), treeOk b t = true →
+    ∃ wl, collectWork b t input (some out) = .ok wl
+
+/-- witness (known finding C11-F1): `darklua process . ../out` in `/r/src` -/
+theorem collect_total_full_false : ¬ collect_total_full := by
+  intro h
+  obtain ⟨wl, hwl⟩ := h ⟨true, [.root, .normal [0], .normal [1]]⟩ exFsTree [.cur]
+    [.parent, .normal [9]] (by decide)
+  have : (collectWork ⟨true, [.root, .normal [0], .normal [1]]⟩ exFsTree [.cur]
+      (some [.parent, .normal [9]])).toOption = none := by decide
+  rw [hwl] at this
+  cases this
+
+/-- the unrestricted statement "every Lua file below the input gets a work item" for the input
+`.` on memory resources -/
+def dot_collects_full : Prop :=
+  ∀ (t : Tree) (out : Path), treeOk exMem t = true → ∀ k ∈ fileKeys t, isLuaPath k = true →
+    ∃ wl, collectWork exMem t [.cur] (some out) = .ok wl ∧ ∃ it ∈ wl, it.source = k
+
+/-- witness (known finding C11-F1m): nothing is collected -/
+theorem dot_collects_full_false : ¬ dot_collects_full := by
+  intro h
+  obtain ⟨wl, hwl, it, hit, _⟩ := h exTree [.normal [9]] (by decide)
+    [.normal [1], .normal nmA] (by decide) (by decide)
+  have : (collectWork exMem exTree [.cur] (some [.normal [9]])).toOption = some [] := by decide
+  rw [hwl] at this
+  simp only [Except.toOption, Option.some.injEq] at this
+  subst this
+  cases hit
+
+example : h11 exMem exTree [.cur] (some [.normal [9]]) = false := by decide
+example : classDot [.cur] = true := by decide
 
 /-! ## Part 2 — what fail-fast guarantees -/
 
